@@ -269,6 +269,14 @@ func (s *State) GetBalance(a Addr) *big.Int {
 	return new(big.Int)
 }
 
+// GetBalanceQuiet reads the balance without leaving an access footprint (harness bookkeeping).
+func (s *State) GetBalanceQuiet(a Addr) *big.Int {
+	if acc := s.cur.accounts[a]; acc != nil {
+		return new(big.Int).Set(acc.Balance)
+	}
+	return new(big.Int)
+}
+
 func (s *State) GetNonce(a Addr) uint64 {
 	if acc := s.get(a); acc != nil {
 		return acc.Nonce
